@@ -505,12 +505,21 @@ class C15(Property):
                     for c in (None, 'repeat', 2):
                         yield mk(fn, start, stop, c, 2.0, take=2)
 
+    @staticmethod
+    def dtwin(c):
+        """the same call on the `D` instance of the model (B64: the natural-number model of non-negative binary64
+        arithmetic that the b64_* theorems are about) - when every parameter is a finite double with a clear sign bit"""
+        if all(c[k][0] in '01234567' and math.isfinite(f(c[k])) for k in ('start', 'stop', 'factor', 'jitter')):
+            yield dict(c, inst='D')
+
     def cases(self, budget_s):
         rng = self.rng
         for c in self.sessions_small():
             yield c
         for c in self.early():
             yield c
+            for d in self.dtwin(c):
+                yield d
         for c in self.sessions_long():
             yield c
         for i in range(150):
@@ -528,9 +537,15 @@ class C15(Property):
             yield c
             yield dict(c, inst='Q')
         for i in range(9000 * mult):
-            yield self.edge(rng)
+            c = self.edge(rng)
+            yield c
+            for d in self.dtwin(c):
+                yield d
         for i in range(5000 * mult):
-            yield self.adversarial(rng)
+            c = self.adversarial(rng)
+            yield c
+            for d in self.dtwin(c):
+                yield d
 
     def deep_cases(self, budget_s):
         rng = self.rng
@@ -999,7 +1014,7 @@ class C15(Property):
     def rval(inst, hx):
         if hx.startswith('type:'):
             return hx
-        if inst == 'F':
+        if inst in 'FD':
             return cz(hx)
         fr = Fraction(f(hx))
         return '%d/%d' % (fr.numerator, fr.denominator)
@@ -1229,7 +1244,7 @@ class C15(Property):
         if c == 'repeat' and case['take'] > 1:
             yield dict(case, take=max(1, case['take'] // 2))
             yield dict(case, take=case['take'] - 1)
-        if case['inst'] != 'F':
+        if case['inst'] == 'Q':
             return
         if case['fn'] == 'I' and c != 'repeat':
             yield dict(case, fn='L')
